@@ -86,11 +86,24 @@ def _has_var(t):
     return False
 
 
+# Optional extra schemas registered by a property module at import time (opt-in, so other properties are unaffected):
+# callables(terms) -> list of ground z3 facts, each an instance of a textbook identity (part of A4 for that property).
+# C12 registers lemmas/c12_trig.trig_facts (angle addition / parity with the arithmetic side condition as antecedent).
+EXTRA_SCHEMAS = []
+
+
 def lemma_instances(terms, rounds=2, extra_points=()):
     """Ground instances of the A4 lemma schemas for the function applications occurring in `terms`.
     Returns (list of z3 facts, count)."""
     facts = []
     seen_facts = set()
+    extra = []  # instances from EXTRA_SCHEMAS: appended at the end, the built-in schemas are not re-instantiated on them
+    if EXTRA_SCHEMAS and any(_apps(list(terms)).values()):
+        for sch in EXTRA_SCHEMAS:
+            for f in sch(list(terms)):
+                if f.get_id() not in seen_facts:
+                    seen_facts.add(f.get_id())
+                    extra.append(f)
 
     def add(f):
         k = f.get_id()
@@ -141,6 +154,12 @@ def lemma_instances(terms, rounds=2, extra_points=()):
             add(F["sinh"](F["arcsinh"](t)) == t)
             add((t > 0) == (F["arcsinh"](t) > 0))
             add((t == 0) == (F["arcsinh"](t) == 0))
+        if _ == 0:
+            # odd symmetry (textbook): sinh(-t) = -sinh(t), arcsinh(-t) = -arcsinh(t); instantiated once (first round only)
+            for t in sh:
+                add(F["sinh"](z3.simplify(-t)) == -F["sinh"](t))
+            for t in ash:
+                add(F["arcsinh"](z3.simplify(-t)) == -F["arcsinh"](t))
         for a, b in itertools.combinations(sh, 2):
             add((a < b) == (F["sinh"](a) < F["sinh"](b)))
         for a, b in itertools.combinations(ash, 2):
@@ -182,6 +201,7 @@ def lemma_instances(terms, rounds=2, extra_points=()):
             add(rr * F["cos"](a) == x)
             add(rr * F["sin"](a) == y)
             add(z3.And(a > -V.PI - 0, a <= V.PI))
+    facts = facts + extra
     return facts, len(facts)
 
 
@@ -190,13 +210,20 @@ def lemma_instances(terms, rounds=2, extra_points=()):
 # ---------------------------------------------------------------------------------------------
 
 _SUMF = {}
+_SIGMA_DEPTH = [0]
+_SKELETONS = {}
 
 
 def sigma(n, body_fn, sort="real"):
     """Σ_{j=0}^{n-1} body_fn(j) as a term.  Alpha-equivalent summands give identical terms
     (z3 hash-conses lambdas), which yields Σ-congruence for free."""
-    j = z3.Int("j!sum")
-    b = lift(body_fn(j))
+    # bound variable named by nesting depth, so a Σ inside the summand of another Σ cannot capture it
+    _SIGMA_DEPTH[0] += 1
+    try:
+        j = z3.Int(f"j!sum{_SIGMA_DEPTH[0]}")
+        b = lift(body_fn(j))
+    finally:
+        _SIGMA_DEPTH[0] -= 1
     b = V._num(b)
     if sort == "real" and z3.is_int(b):
         b = z3.ToReal(b)
@@ -205,7 +232,37 @@ def sigma(n, body_fn, sort="real"):
     if key not in _SUMF:
         _SUMF[key] = z3.Function(f"Sigma_{key}", z3.IntSort(), z3.ArraySort(z3.IntSort(), rng), rng)
     lam = z3.Lambda([j], b)
-    return Sym(_SUMF[key](lift(n), lam))
+    t = _SUMF[key](lift(n), lam)
+    # Lambda-lifting: name the Σ-term by an uninterpreted FUNCTION of the free constants of (bound, summand):
+    #     Σ_{j<n} f(j, c1..cm)   ~>   Sigma!k(c1..cm)        (k identifies the closed skeleton of the term)
+    # The application depends on every free symbol, so an enclosing Σ-binder or a later ForAll/substitution over any of
+    # them is respected; equal skeletons with equal arguments give equal terms (Σ-congruence by EUF); obligations stay
+    # free of lambda terms, which quantifier instantiation handles badly.
+    consts, seen = [], set()
+
+    def walk(e):
+        if e.get_id() in seen:
+            return
+        seen.add(e.get_id())
+        if z3.is_const(e) and e.decl().kind() == z3.Z3_OP_UNINTERPRETED:
+            consts.append(e)
+            return
+        if z3.is_quantifier(e):
+            walk(e.body())
+            return
+        for c in e.children():
+            walk(c)
+
+    walk(t)
+    place = [z3.Const(f"$c{i}", c.sort()) for i, c in enumerate(consts)]
+    skeleton = z3.substitute(t, *zip(consts, place)).sexpr() if consts else t.sexpr()
+    if skeleton not in _SKELETONS:
+        _SKELETONS[skeleton] = len(_SKELETONS)
+    name = f"Sigma!{_SKELETONS[skeleton]}"
+    if not consts:
+        return Sym(z3.Const(name, rng))
+    Fk = z3.Function(name, *[c.sort() for c in consts], rng)
+    return Sym(Fk(*consts))
 
 
 def reduce_sum(arr, axis=None, keepdims=False):
@@ -220,6 +277,8 @@ def reduce_sum(arr, axis=None, keepdims=False):
         axes = (axis % nd,)
     axes = tuple(sorted(axes))
     keep = [i for i in range(nd) if i not in axes]
+    arrfn = arr.fn  # snapshot
+
     # concrete small extents: expand the sum
     def fn(*idx):
         idx = list(idx)
@@ -231,7 +290,7 @@ def reduce_sum(arr, axis=None, keepdims=False):
         def rec(ai, bound):
             if ai == len(axes):
                 full = [bound[i] if i in bound else outer[i] for i in range(nd)]
-                return arr.fn(*full)
+                return arrfn(*full)
             a = axes[ai]
             n = arr.shape[a]
             ln = V._dim_lit(n)
@@ -243,15 +302,12 @@ def reduce_sum(arr, axis=None, keepdims=False):
                     term = rec(ai + 1, b2)
                     tot = term if tot is None else tot + term
                 return tot if tot is not None else 0
-            jname = z3.Int(f"j!sum{ai}")
-
             def body(j, _a=a, _ai=ai):
                 b2 = dict(bound)
                 b2[_a] = j
                 return rec(_ai + 1, b2)
 
-            # nested sums use distinct bound names through substitution
-            return sigma(n, lambda j: _subst_bound(body, j, ai))
+            return sigma(n, body)
 
         return rec(0, {})
 
